@@ -55,6 +55,7 @@ static Result *g_res = nullptr;
 static Rng g_rng(1);
 static uint64_t g_steps = 0;
 static uint64_t g_alone_steps = 0;
+static uint64_t g_alone_budget = 0;
 static std::vector<uint64_t> g_cps; // PCT change points (sorted)
 static size_t g_cp_idx = 0;
 static int g_low_prio = 0;
@@ -68,6 +69,10 @@ static std::vector<Access> g_fp;
 int current_task() { return g_cur; }
 uint64_t alone_steps() { return g_alone_steps; }
 void alone_steps_reset() { g_alone_steps = 0; }
+void alone_budget(uint64_t b) {
+    g_alone_steps = 0;
+    g_alone_budget = b;
+}
 void lib_enter() {
     if (g_cur >= 0) g_tasks[g_cur].in_lib++;
 }
@@ -250,6 +255,7 @@ static int resolve(uint64_t want, const std::vector<int> &r) {
 static inline void yield_point() {
     if (g_cur < 0) {
         g_alone_steps++;
+        if (g_alone_budget && g_alone_steps > g_alone_budget) _exit(78); // runaway loop outside run()
         return;
     }
     g_steps++;
